@@ -37,6 +37,8 @@ type Env struct {
 	verbose       bool
 	nativeCache   sync.Map
 	memo          sync.Map
+	constCache    sync.Map
+	fnInfos       sync.Map
 }
 
 type Harness struct {
